@@ -208,7 +208,7 @@ static int fault_decide_mmap(void) {
 
 /* ---- gates ------------------------------------------------------------- */
 static uint64_t gate_count[16];
-static const char *gate_names[] = {"after_open", "before_write", "after_write", "before_fsync", "after_fsync", "before_mmap", "after_mmap", "before_close", "after_stat", "before_open", 0};
+static const char *gate_names[] = {"after_open", "before_write", "after_write", "before_fsync", "after_fsync", "before_mmap", "after_mmap", "before_close", "after_stat", "before_open", "before_truncate", 0};
 
 static void touch(const char *p) {
     int fd = real_open64(p, O_WRONLY | O_CREAT, 0644);
@@ -405,6 +405,7 @@ int fdatasync(int fd) {
 
 int ftruncate64(int fd, off64_t len) {
     init_real();
+    if (is_tracked(fd)) gate(10);
     int ret = real_ftruncate64(fd, len);
     if (is_tracked(fd)) {
         pthread_mutex_lock(&mu);
